@@ -20,13 +20,13 @@ import (
 // client message starts with). regexp semantics cannot be put under a contract of this verifier.
 
 type BoundedCheck struct {
-	Name    string
-	Props   []string
-	Kind    string
-	Target  string
-	MaxLen  int
-	Where   string
-	Pkg     string
+	Name   string
+	Props  []string
+	Kind   string
+	Target string
+	MaxLen int
+	Where  string
+	Pkg    string
 }
 
 type BoundedResult struct {
@@ -38,7 +38,7 @@ type BoundedResult struct {
 	Err         error
 }
 
-func isJSONWS(c byte) bool { return c == ' ' || c == '\t' || c == '\n' || c == '\r' }
+func isJSONWS(c byte) bool   { return c == ' ' || c == '\t' || c == '\n' || c == '\r' }
 func isRegexpWS(c byte) bool { return isJSONWS(c) || c == '\f' || c == '\v' }
 func isWord(c byte) bool {
 	return c == '_' || c >= '0' && c <= '9' || c >= 'a' && c <= 'z' || c >= 'A' && c <= 'Z'
